@@ -90,6 +90,18 @@ func (s *Session) remoteConfig() *mast.RemoteConfig {
 	if s.keyCompare == nil && s.Cfg.WideCmp {
 		s.keyCompare = s.wideCompare()
 	}
+	if s.Cfg.NoVL && s.Cfg.Fmt == "bin" {
+		return &mast.RemoteConfig{
+			KeysLike:                s.Cfg.KeysLike(),
+			StoreImmutablePartsWith: s.Store,
+			NodeCache:               s.Cache,
+			KeyCompare:              s.keyCompare,
+			Marshal:                 s.marshal,
+			Unmarshal:               s.unmarshal,
+
+			UnmarshalerUsesRegisteredTypes: true,
+		}
+	}
 	return &mast.RemoteConfig{
 		KeysLike:                s.Cfg.KeysLike(),
 		ValuesLike:              s.Cfg.ValuesLike(),
